@@ -18,6 +18,7 @@ from ..runner import Violation, lib_frame
 from .. import refcalc_activation as ra
 from . import c14
 
+AMBIENT_SKIP = ("decimal",)      # the oracle computes in the thread's decimal context throughout
 PROPERTY = "C15"
 RULE = ("Hypothesis draws a sample (1..4 atoms: natural elements, isotopes, ions, isotope ions, D/T; mass; "
         "environment; exposure - the C14 generator), two rest-time lists (length 1..6, any order, with or without 0, "
